@@ -260,15 +260,24 @@ def scalar_case(draw, tier="quick"):
     else:
         o = np.random.default_rng(s + 1).uniform(0.5, 2.0, size=len(w))
     return {"w_nm": w, "v": v, "unit": draw(st.sampled_from(UNITS)), "op": draw(st.sampled_from(list(OPS))),
-            "other_kind": other, "other": o, "rmul": draw(st.booleans())}
+            "other_kind": other, "other": o, "rmul": draw(st.booleans()), "int_lists": draw(st.booleans())}
 
 
 @hyp("C13", "scalar_vector", lambda tier: scalar_case(tier),
      "Spectrum (op) scalar / equal-length vector acts element-wise on the unchanged wavelength grid; reflected "
      "multiplication", examples=(400, 1500))
 def scalar_vector(case, ctx):
-    s = mk(case["w_nm"], case["v"], case["unit"], None)
-    w0, v0 = s.wave.copy(), s.value.copy()
+    if case.get("int_lists") and case["unit"] == "nm":
+        # a spectrum given as plain lists of integers
+        wi = sorted(set(int(round(x)) for x in case["w_nm"]))
+        vi = [int(x * 10) + 1 for x in case["v"][:len(wi)]]
+        s = Spectrum(wi, vi, waveunit="nm")
+        case = dict(case, w_nm=np.array(wi, dtype=float), v=np.array(vi, dtype=float),
+                    other=(case["other"] if np.ndim(case["other"]) == 0 else np.asarray(case["other"])[:len(wi)]))
+        ctx.tag("int_lists")
+    else:
+        s = mk(case["w_nm"], case["v"], case["unit"], None)
+    w0, v0 = np.array(s.wave, copy=True), np.array(s.value, copy=True)
     o = case["other"]
     if case["other_kind"] == "list":
         o = list(np.asarray(o).tolist())
